@@ -109,10 +109,6 @@ theorem lost_if_unreachable (adj) (fuel s v : Nat) (h : ¬ Reach adj s v) :
 
 /-! ### completeness with the fuel the model uses -/
 
-/-- every neighbour list stays inside `0..n-1` (decidable; the driver evaluates it) -/
-def closedB (n : Nat) (adj : Nat → List Nat) : Bool :=
-  (List.range n).all fun u => (adj u).all fun w => decide (w < n)
-
 theorem closedB_iff (n : Nat) (adj : Nat → List Nat) :
     closedB n adj = true ↔ ∀ u < n, ∀ w ∈ adj u, w < n := by
   simp [closedB]
@@ -802,7 +798,7 @@ theorem gather_sets_nonempty (shape : List Nat) (label : List Int → Nat) (m : 
   rw [hnil] at this
   cases this
 
-theorem coordsFrom_getElem? {α : Type} (axis : Nat → Nat → α) :
+theorem coordsFrom_get {α : Type} (axis : Nat → Nat → α) :
     ∀ (idx : List Int) (e d : Nat),
       (coordsFrom axis e idx)[d]? = idx[d]?.map fun i => axis (e + d) i.toNat := by
   intro idx
@@ -826,7 +822,7 @@ theorem coords_are_cell_centres {α : Type} [Field α] (lo δ : Nat → α) (idx
     (coordsOf (fun d k => lo d + (k : α) * δ d) idx)[d]? =
       idx[d]?.map fun i => lo d + ((i.toNat : Nat) : α) * δ d := by
   unfold coordsOf
-  rw [coordsFrom_getElem?]
+  rw [coordsFrom_get]
   simp
 
 /-- distinct indices of an axis with non-zero cell size are distinct coordinates -/
